@@ -348,7 +348,8 @@ Section Propagation.
     notok (solve kinds G (afix f) (plug_p he hs P) start s).
   Proof.
     intros W Hat. pose proof (afix_pres kinds G PG f) as PA.
-    unfold solve. here. destruct P; cbn [plug_p at_p] in *.
+    unfold solve. apply (bind_notok_rj J HJ); [apply pres_iterM; intros; now apply pres_outer_statement|assumption|].
+    clear s W. intros _ s W. here. destruct P; cbn [plug_p at_p] in *.
     - apply (iterM_notok_j J HJ); [intros; now apply pres_outer_statement| |assumption].
       intros s1 W1. cbv beta. now apply outer_def_notok_j.
     - apply (iterM_notok_j J HJ); [intros; now apply pres_outer_statement| |assumption].
@@ -408,4 +409,18 @@ Theorem no_output_on_error {L} (lower : resolved -> L) fuel r :
 Proof.
   unfold compile_after_order. destruct (typecheck fuel r) as [[]| | |]; repeat split; intros; try discriminate;
     try congruence.
+Qed.
+
+(* since 3c0758d solve goes through the type declarations once before everything else: that pass keeps the state
+   well-formed, so a program is rejected when its main pass is rejected from every well-formed state *)
+Lemma typecheck_notok_main fuel vars stmts :
+  (forall s, wf s ->
+     notok (iterM (fun st => outer_statement (kinds_of vars 1 (PositiveMap.empty varkind)) (gfix fuel)
+                               (afix (kinds_of vars 1 (PositiveMap.empty varkind)) (gfix fuel) fuel) st ctx_new) stmts s)) ->
+  typecheck fuel (mkResolved vars stmts) <> Ok tt.
+Proof.
+  intros H. apply typecheck_notok. intros s W. unfold solve.
+  apply bind_notok_rw; [|exact W|].
+  - apply pres_iterM. intros. apply pres_outer_statement; [apply gfix_pres|apply afix_pres, gfix_pres].
+  - intros _ s1 W1. apply bind_notok_l. now apply H.
 Qed.
